@@ -125,6 +125,25 @@ func compileProbe(t testing.TB, sender util.Uint160, name string) *neotest.Contr
 			c.Manifest.ABI.Methods[i].Safe = true
 		}
 	}
+	// the overload pairs: same name, different parameter counts and safety, the
+	// two-parameter one listed first
+	var short, rest []manifest.Method
+	for _, m := range c.Manifest.ABI.Methods {
+		switch m.Name {
+		case "ovShort":
+			m.Name = "ovProbe"
+			short = append(short, m)
+		case "voShort":
+			m.Name, m.Safe = "voProbe", true
+			short = append(short, m)
+		case "ovProbe":
+			m.Safe = true
+			rest = append(rest, m)
+		default:
+			rest = append(rest, m)
+		}
+	}
+	c.Manifest.ABI.Methods = append(short, rest...)
 	return c
 }
 
